@@ -292,6 +292,9 @@ theorem inv_recv (s : St) (fds : List Fd) (f : Option Nat) (h : Inv s) : Inv (re
 
 theorem inv_step (s : St) (op : Op) (h : Inv s) : Inv (step s op) := by
   cases op with
+  | streamInit ok =>
+    rw [inv_iff] at *
+    simpa [step, streamInit, pending] using h
   | ioBegin r t => exact inv_ioBegin s r t h
   | ioEnd => exact inv_ioEnd s h
   | accept c e => exact inv_uvAccept s c e h
@@ -302,5 +305,53 @@ theorem inv_run (ops : List Op) : ∀ s, Inv s → Inv (run s ops) := by
   induction ops with
   | nil => intro s h; exact h
   | cons op rest ih => intro s h; exact ih _ (inv_step s op h)
+
+/-! ### the ghost flag `stuck` changes only in `uv_accept` with a failing client open -/
+
+theorem stuck_ioBegin (s : St) (r : AcceptRes) (t : Trick) : (ioBegin s r t).stuck = s.stuck := by
+  rcases s with ⟨role, ipc, acc, q, pollin, inCb, closed, spare, fault, stuck, arrived, admitted, taken, byClose, dropped, shed⟩
+  unfold ioBegin
+  cases r <;> simp only [] <;> repeat' split
+  all_goals rfl
+
+theorem stuck_ioEnd (s : St) : (ioEnd s).stuck = s.stuck := by
+  unfold ioEnd; repeat' split
+  all_goals rfl
+
+theorem stuck_close (s : St) : (close s).stuck = s.stuck := by
+  unfold close; split <;> rfl
+
+theorem stuck_putFd (s : St) (q : Queue) (fd : Fd) : (putFd s q fd).stuck = s.stuck := by
+  unfold putFd; split <;> rfl
+
+theorem stuck_queueFd (s : St) (fd : Fd) (ok : Bool) : (queueFd s fd ok).1.stuck = s.stuck := by
+  unfold queueFd; repeat' split
+  all_goals (first | rfl | simp [stuck_putFd])
+
+theorem stuck_recvLoop (f : Option Nat) (fds : List Fd) : ∀ (s : St) (err : Int) (n : Nat),
+    (recvLoop s err n f fds).1.stuck = s.stuck := by
+  induction fds with
+  | nil => intro s err n; rfl
+  | cons fd rest ih =>
+    intro s err n
+    simp only [recvLoop]
+    have hq := stuck_queueFd { s with arrived := s.arrived ++ [fd] } fd (f != some n)
+    generalize queueFd { s with arrived := s.arrived ++ [fd] } fd (f != some n) = res at hq ⊢
+    obtain ⟨s', e, al⟩ := res
+    repeat' split
+    all_goals (rw [ih]; try (first | rfl | exact hq))
+
+theorem stuck_uvAccept_ok (s : St) (c : ClientTy) : (uvAccept s c 0).1.stuck = s.stuck := by
+  unfold uvAccept
+  cases s.acceptedFd with
+  | none => rfl
+  | some fd =>
+    simp only []
+    split
+    · rfl
+    · cases s.queued with
+      | none => simp
+      | some q => simp only []; split <;> rfl
+
 
 end UvModel.Accept
